@@ -1,16 +1,23 @@
 #!/usr/bin/env python3
-"""Generate the layer-R Verus file from /repo. usage: gen_runtime.py <repo> <outdir>"""
+"""Generate the layer-R Verus files from /repo. usage: gen_runtime.py <repo> <outdir> [unit]"""
 import os, sys, json
 HERE = os.path.dirname(os.path.abspath(__file__))
 sys.path.insert(0, HERE)
-from extract import Out, extract, parse_contracts, LostAnchor
-from plan import RUNTIME_PLAN
+from extract import Out, extract, parse_contracts, LostAnchor, Clause
+from plan import RUNTIME_PLAN, CODEGEN_PLAN
 
-def generate(repo, outdir, contracts_dir=None, canary=None):
+UNITS = {
+    'runtime': {'plan': RUNTIME_PLAN, 'contracts': 'runtime.contracts', 'speclib': 'speclib.rs',
+                'theorems': 'theorems.rs', 'out': 'runtime_verus.rs'},
+    'codegen': {'plan': CODEGEN_PLAN, 'contracts': 'codegen.contracts', 'speclib': 'codegen_speclib.rs',
+                'theorems': 'codegen_theorems.rs', 'out': 'codegen_verus.rs'},
+}
+
+def generate(repo, outdir, unit='runtime', contracts_dir=None, canary=None):
+    u = UNITS[unit]
     contracts_dir = contracts_dir or os.path.join(HERE, '..', 'contracts')
-    contracts = parse_contracts(os.path.join(contracts_dir, 'runtime.contracts'))
+    contracts = parse_contracts(os.path.join(contracts_dir, u['contracts']))
     if canary:
-        from extract import Clause
         key = tuple(canary)
         if key not in contracts: raise LostAnchor('canary target %r missing' % (key,))
         contracts[key].clauses.append(Clause('ensures', 'CANARY', [], 'false'))
@@ -19,26 +26,28 @@ def generate(repo, outdir, contracts_dir=None, canary=None):
     out.emit('verus! {')
     out.emit('')
     speclib_lo = out.lineno
-    out.emit(open(os.path.join(contracts_dir, 'speclib.rs')).read().rstrip('\n'))
+    out.emit(open(os.path.join(contracts_dir, u['speclib'])).read().rstrip('\n'))
     out.emit('')
     speclib_hi = out.lineno
-    extract(repo, RUNTIME_PLAN, contracts, out)
+    extract(repo, u['plan'], contracts, out)
     thm_lo = out.lineno
-    out.emit(open(os.path.join(contracts_dir, 'theorems.rs')).read().rstrip('\n'))
+    out.emit(open(os.path.join(contracts_dir, u['theorems'])).read().rstrip('\n'))
     out.emit('')
     out.emit('} // verus!')
     out.emit('fn main() {}')
     os.makedirs(outdir, exist_ok=True)
-    path = os.path.join(outdir, 'runtime_verus.rs')
+    path = os.path.join(outdir, u['out'])
     open(path, 'w').write('\n'.join(out.lines) + '\n')
-    index = {'clauses': out.clause_index, 'fns': out.fn_index, 'log': out.log,
-             'speclib_lines': [speclib_lo, speclib_hi], 'theorems_from': thm_lo}
-    json.dump(index, open(os.path.join(outdir, 'runtime_index.json'), 'w'), indent=1)
+    index = {'unit': unit, 'clauses': out.clause_index, 'fns': out.fn_index, 'log': out.log,
+             'speclib_lines': [speclib_lo, speclib_hi], 'theorems_from': thm_lo,
+             'contract_keys': [list(k) for k in contracts]}
+    json.dump(index, open(os.path.join(outdir, unit + '_index.json'), 'w'), indent=1)
     return path, index
 
 if __name__ == '__main__':
     try:
-        p, idx = generate(sys.argv[1], sys.argv[2])
-        print(p, len(idx['fns']), 'fns', len(idx['clauses']), 'clauses')
+        for unit in (sys.argv[3:] or ['runtime', 'codegen']):
+            p, idx = generate(sys.argv[1], sys.argv[2], unit)
+            print(p, len(idx['fns']), 'fns', len(idx['clauses']), 'clauses')
     except LostAnchor as e:
         print('LOST-ANCHOR:', e); sys.exit(2)
